@@ -510,8 +510,10 @@ def motif_family(io_rotation=None):
     """-> [(label, desc)] enumerated first on every run: one model per kind, then pairs of kinds
     across the literal / non-literal boundary"""
     res = []
-    for k in KINDS:
+    for i, k in enumerate(KINDS):
         if k.motif:
+            if io_rotation is not None and (i + io_rotation) % 2 == 0:
+                continue        # quick tier: every kind every second seed
             res.append(("kind:" + k.id, motif_desc(k)))
     pairs = [("bool", "int"), ("int", "sub_int"), ("float", "sub_float"), ("str", "sub_str"), ("int", "intenum"),
              ("float", "np_float64"), ("str", "np_str"), ("int", "np_int64"), ("none", "bool"),
